@@ -1,17 +1,10 @@
 (* ProtoValue.v -- protocol encoding of documents, selector paths, options, views. *)
 
 From Coq Require Import String.
-From JP Require Import Bytes Dec Proto Value.
+From JP Require Import Bytes Dec Proto Value Model.Conv.
 
 
 (* ---- integers -------------------------------------------------------------------------- *)
-
-Definition dec_of_Z (z : Z) : str :=
-  match z with
-  | Z0 => [48]
-  | Zpos p => dec_of_N (Npos p)
-  | Zneg p => DASH :: dec_of_N (Npos p)
-  end.
 
 Definition parse_Z (f : str) : option Z :=
   match f with
